@@ -24,6 +24,10 @@ differs only by local, behaviour-preserving refactoring idioms:
       an attribute of that name and makes no call on / with the root object
       before the last read
   T10 operator.lt(a, b) and friends            ->  a < b
+  T11 a for loop over a literal sequence of constants (or of tuples of
+      constants) without break/continue/else is unrolled, the loop variables
+      replaced by the constants; getattr(x, "name") -> x.name and
+      setattr(x, "name", v) -> x.name = v
   T7  `True if c else False` / `if c: return True; return False`
         with c a comparison              ->  c
       and a constant list on the right of in / not in becomes a tuple
@@ -108,6 +112,57 @@ def _is_boolean_expr(e):
     if isinstance(e, ast.BoolOp):
         return all(_is_boolean_expr(v) for v in e.values)
     return False
+
+
+def _walk_same_loop(stmts):
+    """Nodes of a loop body that belong to this loop (not to inner loops or
+    nested scopes)."""
+    for st in stmts:
+        yield st
+        if isinstance(st, (ast.For, ast.While, ast.FunctionDef,
+                           ast.AsyncFunctionDef, ast.ClassDef)):
+            continue
+        for fld in ("body", "orelse", "finalbody"):
+            sub = getattr(st, fld, None)
+            if isinstance(sub, list) and sub and isinstance(sub[0],
+                                                            ast.stmt):
+                yield from _walk_same_loop(sub)
+        if isinstance(st, ast.Try):
+            for h in st.handlers:
+                yield from _walk_same_loop(h.body)
+
+
+class _ConstSubst(ast.NodeTransformer):
+    """Replace loop variables by constants; fold getattr with a constant
+    name into an attribute access."""
+
+    def __init__(self, mapping):
+        self.mapping = mapping
+
+    def visit_Name(self, node):
+        if node.id in self.mapping and isinstance(node.ctx, ast.Load):
+            return ast.copy_location(copy.deepcopy(self.mapping[node.id]),
+                                     node)
+        return node
+
+    def visit_Call(self, node):
+        self.generic_visit(node)
+        if isinstance(node.func, ast.Name) and node.func.id == "getattr" \
+                and len(node.args) == 2 and not node.keywords and \
+                isinstance(node.args[1], ast.Constant) and isinstance(
+                    node.args[1].value, str) and \
+                node.args[1].value.isidentifier():
+            return ast.copy_location(ast.Attribute(
+                value=node.args[0], attr=node.args[1].value,
+                ctx=ast.Load()), node)
+        return node
+
+
+def _preorder(nodes):
+    """Nodes of a statement list in evaluation (source) order."""
+    for n in nodes:
+        yield n
+        yield from _preorder(list(ast.iter_child_nodes(n)))
 
 
 def _pure_boolean(e):
@@ -283,18 +338,33 @@ class Canon:
                          if isinstance(n, ast.Attribute)]
             if not roots:
                 continue
-            if any(u.stores.get(r, 0) != 0 or r in u.banned and
-                   r not in self._params for r in roots) or \
-                    "*" in attr_stores or any(a in attr_stores
-                                              for a in attrs):
+            if any(r in u.banned and r not in self._params for r in roots):
                 continue
             # no call on / with the root before the last read of v
             rest = blk[i + 1:]
-            last = None
+            attr_stores = set()
+            rebound = False
             for n in ast.walk(ast.Module(body=rest, type_ignores=[])):
+                if isinstance(n, ast.Name) and n.id in roots and \
+                        isinstance(n.ctx, (ast.Store, ast.Del)):
+                    rebound = True
+                if isinstance(n, ast.Attribute) and isinstance(
+                        n.ctx, (ast.Store, ast.Del)):
+                    attr_stores.add(n.attr)
+                if isinstance(n, ast.Call) and isinstance(
+                        n.func, ast.Name) and n.func.id in ("setattr",
+                                                            "delattr"):
+                    attr_stores.add("*")
+            if rebound or "*" in attr_stores or any(
+                    a in attr_stores for a in attrs):
+                continue
+            order = {}
+            for n in _preorder(rest):
+                order[id(n)] = len(order)
+            last = None
+            for n in _preorder(rest):
                 if isinstance(n, ast.Name) and n.id == v:
-                    pos = (n.lineno, n.col_offset)
-                    last = pos if last is None or pos > last else last
+                    last = order[id(n)]
             if last is None:
                 continue
             inside = sum(1 for n in ast.walk(ast.Module(
@@ -304,15 +374,16 @@ class Canon:
                 continue
             clean = True
             for n in ast.walk(ast.Module(body=rest, type_ignores=[])):
-                if isinstance(n, ast.Call) and (
-                        getattr(n, "lineno", 0), getattr(
-                            n, "col_offset", 0)) <= last:
+                if isinstance(n, ast.Call) and order.get(id(n), 0) <= last:
                     recv = n.func
                     while isinstance(recv, ast.Attribute):
                         recv = recv.value
-                    names = {x.id for a in list(n.args) + [
-                        k.value for k in n.keywords] for x in ast.walk(a)
-                        if isinstance(x, ast.Name)}
+                    names = set()
+                    for a in list(n.args) + [k.value for k in n.keywords]:
+                        if isinstance(a, ast.Starred):
+                            a = a.value
+                        if isinstance(a, ast.Name):
+                            names.add(a.id)
                     if (isinstance(recv, ast.Name) and recv.id in roots
                             and isinstance(n.func, ast.Attribute)
                             and n.func.value is recv) or roots & names:
@@ -377,6 +448,7 @@ class Canon:
             if isinstance(s, ast.Try):
                 for h in s.handlers:
                     h.body = self.block(h.body)
+        stmts = self._unroll(stmts)
         # empty branches left behind by dropped statements
         cleaned = []
         for s in stmts:
@@ -494,6 +566,87 @@ class Canon:
             i += 1
         return out
 
+    def _unroll(self, stmts):
+        out = []
+        for idx, s in enumerate(stmts):
+            # setattr(x, "name", v) statement
+            if isinstance(s, ast.Expr) and isinstance(s.value, ast.Call) and \
+                    isinstance(s.value.func, ast.Name) and \
+                    s.value.func.id == "setattr" and len(
+                        s.value.args) == 3 and not s.value.keywords and \
+                    isinstance(s.value.args[1], ast.Constant) and \
+                    isinstance(s.value.args[1].value, str) and \
+                    s.value.args[1].value.isidentifier():
+                a = s.value.args
+                out.append(ast.copy_location(ast.Assign(
+                    targets=[ast.Attribute(value=a[0], attr=a[1].value,
+                                           ctx=ast.Store())],
+                    value=a[2]), s))
+                self.did("T11.setattr")
+                continue
+            if not (isinstance(s, ast.For) and not s.orelse
+                    and isinstance(s.iter, (ast.Tuple, ast.List))
+                    and 0 < len(s.iter.elts) <= 12):
+                out.append(s)
+                continue
+            rows = []
+            ok = True
+            for e in s.iter.elts:
+                if isinstance(e, ast.Constant):
+                    rows.append(e)
+                elif isinstance(e, (ast.Tuple, ast.List)) and all(
+                        isinstance(x, ast.Constant) for x in e.elts):
+                    rows.append(e)
+                else:
+                    ok = False
+            tnames = [n.id for n in ast.walk(s.target)
+                      if isinstance(n, ast.Name)]
+            if isinstance(s.target, ast.Name):
+                shape_ok = True
+            elif isinstance(s.target, ast.Tuple) and all(
+                    isinstance(e, ast.Name) for e in s.target.elts):
+                shape_ok = all(isinstance(r, (ast.Tuple, ast.List)) and
+                               len(r.elts) == len(s.target.elts)
+                               for r in rows)
+            else:
+                shape_ok = False
+            if not ok or not shape_ok:
+                out.append(s)
+                continue
+            # no break / continue of this loop, loop variables not rebound
+            # in the body and not read after the loop
+            bad = False
+            for n in _walk_same_loop(s.body):
+                if isinstance(n, (ast.Break, ast.Continue)):
+                    bad = True
+            for n in ast.walk(ast.Module(body=s.body, type_ignores=[])):
+                if isinstance(n, ast.Name) and n.id in tnames and \
+                        isinstance(n.ctx, (ast.Store, ast.Del)):
+                    bad = True
+            for later in stmts[idx + 1:]:
+                for n in ast.walk(later):
+                    if isinstance(n, ast.Name) and n.id in tnames:
+                        bad = True
+            if any(t in self.usage.banned for t in tnames):
+                bad = True
+            size = sum(1 for n in ast.walk(ast.Module(
+                body=s.body, type_ignores=[])) if isinstance(n, ast.stmt))
+            if bad or size * len(rows) > 240:
+                out.append(s)
+                continue
+            for r in rows:
+                if isinstance(s.target, ast.Name):
+                    mapping = {s.target.id: r}
+                else:
+                    mapping = {e.id: v for e, v in zip(s.target.elts,
+                                                       r.elts)}
+                for b in s.body:
+                    nb = copy.deepcopy(b)
+                    nb = _ConstSubst(mapping).visit(nb)
+                    out.append(nb)
+            self.did("T11.unroll")
+        return out
+
     def _loads_total(self, v):
         return self.usage.loads.get(v, 0) if v not in self.usage.banned \
             else 99
@@ -553,6 +706,30 @@ class Canon:
             br[-1] = ast.copy_location(new_ret, last)
 
     def _lower_ifexp(self, s):
+        # a conditional expression that is a direct argument of the call a
+        # simple statement consists of: f(a if c else b)
+        v = getattr(s, "value", None)
+        if isinstance(s, (ast.Assign, ast.Return, ast.Expr)) and \
+                isinstance(v, ast.Call) and _pure_operand(v.func):
+            slots = [("args", i) for i in range(len(v.args))] + \
+                [("keywords", i) for i in range(len(v.keywords))]
+            for kind, i in slots:
+                arg = v.args[i] if kind == "args" else v.keywords[i].value
+                if isinstance(arg, ast.IfExp) and not (
+                        _is_boolean_expr(arg.test) and
+                        isinstance(arg.body, ast.Constant) and
+                        isinstance(arg.orelse, ast.Constant) and
+                        isinstance(arg.body.value, bool)):
+                    a, b = copy.deepcopy(s), copy.deepcopy(s)
+                    for st, val in ((a, arg.body), (b, arg.orelse)):
+                        if kind == "args":
+                            st.value.args[i] = copy.deepcopy(val)
+                        else:
+                            st.value.keywords[i].value = copy.deepcopy(val)
+                    return ast.copy_location(
+                        ast.If(test=arg.test, body=[a], orelse=[b]), s)
+                if not _pure_operand(arg):
+                    break
         if isinstance(s, (ast.Assign, ast.AugAssign, ast.AnnAssign,
                           ast.Return)) and isinstance(
                               getattr(s, "value", None), ast.IfExp):
